@@ -180,13 +180,13 @@ Definition expected_rows : list row := [
   ("DescribeConfigs", [("allowTopic[resource.ResourceName]:ActionFetch", "skip")], "h.store.FetchTopicConfig");
   ("DescribeGroups", [("allowGroup[groupID]:ActionGroupRead", "filter"); ("acquireGroupLease", "filter"); ("etcdAvailable", "reject")], "h.coordinator.DescribeGroups");
   ("Fetch", [("resolved[topicName]", "pre"); ("allowTopic[topicName]:ActionFetch", "skip"); ("s3Health.State:S3StateDegraded|S3StateUnavailable", "skip");
-             ("allowTopic[topicName]:ActionProduce", "flag")], "h.partitionLog");
+             ("mayCreate=allowTopic[topicName]:ActionProduce", "flag")], "h.partitionLog");
   ("FindCoordinator", [], "none");
   group_write_row "Heartbeat" "h.coordinator.Heartbeat";
   group_write_row "JoinGroup" "h.coordinator.JoinGroup";
   group_write_row "LeaveGroup" "h.coordinator.LeaveGroup";
   ("ListGroups", [("allowGroup[""*""]:ActionGroupRead", "reject"); ("etcdAvailable", "reject")], "h.coordinator.ListGroups");
-  ("ListOffsets", [("allowTopics[topicsFromListOffsets()]:ActionFetch", "reject"); ("allowTopic[topic.Topic]:ActionProduce", "flag")], "h.partitionLog");
+  ("ListOffsets", [("allowTopics[topicsFromListOffsets()]:ActionFetch", "reject"); ("mayCreate=allowTopic[topic.Topic]:ActionProduce", "flag")], "h.partitionLog");
   ("Metadata", [("allowTopic[name]:ActionProduce", "skip")], "h.ensureTopic");
   group_write_row "OffsetCommit" "h.coordinator.OffsetCommit";
   ("OffsetFetch", [("allowGroup[req.Group]:ActionGroupRead", "reject"); ("acquireGroupLease", "reject"); ("etcdAvailable", "reject")], "h.coordinator.OffsetFetch");
@@ -217,3 +217,59 @@ Definition row_ok (gen : list (bytes * list (bytes * bytes) * bytes)) (k : strin
 (* no case of Handle is missing from / unknown to the model *)
 Definition same_kinds (gen : list (bytes * list (bytes * bytes) * bytes)) : bool :=
   list_eqb bytes_eqb (map (fun r => fst (fst r)) gen) (map (fun r => fst (fst (row_bytes r))) expected_rows).
+
+(* ---------- every call site that can reach topic creation is guarded ----------
+   gen/DispatchTable.v lists, per dispatch case, EVERY call in the case's handler code that can
+   reach topic creation (h.store.CreateTopic or a handler method that transitively reaches it),
+   with the guards accumulated at that point. A site is fine when
+   - a produce guard on a topic (allowTopic[..]:ActionProduce) or allowAdmin dominates it as a
+     `skip` / `reject` guard, or
+   - the callee takes an autoCreate argument (recorded as call[<arg>]) and that argument is a
+     variable holding a stored produce verdict ("<arg>=allowTopic[..]:ActionProduce" / flag).
+   This is what makes [creates] (and so C24_creation_needs_permission) a faithful summary of
+   the code: a new unguarded path to getPartitionLog / ensureTopic in ANY handler makes the
+   lemma that names that dispatch case fail. *)
+Fixpoint bprefix (s p : bytes) {struct p} : bool :=
+  match p, s with
+  | [], _ => true
+  | x :: p', y :: s' => (x =? y) && bprefix s' p'
+  | _ :: _, [] => false
+  end.
+
+Fixpoint bcontains (sub s : bytes) {struct s} : bool :=
+  bprefix s sub || match s with [] => false | _ :: s' => bcontains sub s' end.
+
+Fixpoint after_bracket (s : bytes) : option bytes :=
+  match s with
+  | [] => None
+  | c :: s' => if c =? 91 then Some (removelast s') else after_bracket s'
+  end.
+
+Definition create_guard (g : bytes * bytes) : bool :=
+  (bytes_eqb (snd g) (codes "skip") || bytes_eqb (snd g) (codes "reject")) &&
+  (bcontains (codes ":ActionProduce") (fst g) || bytes_eqb (fst g) (codes "allowAdmin")).
+
+Definition stored_create_verdict (v : bytes) (g : bytes * bytes) : bool :=
+  bytes_eqb (snd g) (codes "flag") && bprefix (fst g) (v ++ codes "=") && bcontains (codes ":ActionProduce") (fst g).
+
+Definition site_ok (st : bytes * list (bytes * bytes)) : bool :=
+  let '(call, gs) := st in
+  negb (bprefix call (codes "UNGUARDED:")) &&
+  (existsb create_guard gs ||
+   match after_bracket call with
+   | Some v => existsb (stored_create_verdict v) gs
+   | None => false
+   end).
+
+Fixpoint find_sites (k : bytes) (t : list (bytes * list (bytes * list (bytes * bytes)))) : option (list (bytes * list (bytes * bytes))) :=
+  match t with
+  | [] => None
+  | (k', ss) :: t' => if bytes_eqb k k' then Some ss else find_sites k t'
+  end.
+
+(* all creation-reaching call sites of dispatch case [k] are guarded (the case must be listed) *)
+Definition sites_ok (gen : list (bytes * list (bytes * list (bytes * bytes)))) (k : string) : bool :=
+  match find_sites (codes k) gen with
+  | Some ss => forallb site_ok ss
+  | None => false
+  end.
